@@ -297,7 +297,11 @@ class Machine:
             return None
         if k == "cond":
             evs = [self.events[x] for x in o["s"]]
-            c = env.all_of(evs) if o["a"] == 1 else env.any_of(evs)
+            if len(evs) == 2 and (o["s"][0] * 7 + o["s"][1]) % 3 != 0:
+                # two operands: two times out of three through the operators & and | (same meaning, another code path)
+                c = (evs[0] & evs[1]) if o["a"] == 1 else (evs[0] | evs[1])
+            else:
+                c = env.all_of(evs) if o["a"] == 1 else env.any_of(evs)
             self.reg(c, "cond", probe=(o["b"] == 1))
             return None
         if k == "condforeign":
